@@ -79,7 +79,8 @@ def rerun(ids):
         meta["detected_by"] = sorted(c for c, v in det.items() if v["detected"])
         meta["rerun_at_repo_commit"] = subprocess.check_output(["git", "-C", "/repo", "rev-parse", "--short", "HEAD"], text=True).strip()
         json.dump(meta, open(mp, "w"), indent=1)
-        print(mid, "->", meta["detected_by"] or "MISSED", {c: v["first"][:70] for c, v in det.items() if v["detected"]})
+        print(mid, "->", meta["detected_by"] or "MISSED", {c: v["first"][:70] for c, v in det.items() if v["detected"]},
+              {c: "exit %d" % v["exit"] for c, v in det.items() if not v["detected"]}, flush=True)
         summary.append((mid, meta["detected_by"]))
     missed = [m for m, d in summary if not d]
     print("missed:", missed)
